@@ -132,8 +132,26 @@ func report(eng *Engine, prop, tier string, seed int, verif string, results []*f
 							}
 						}
 					}
+					// no counter-model replay: if this function had a defect before (fixed entry of the known
+					// findings) the recorded failing input of that defect is run against the real code
+					witnessed := false
+					if !replayOK[path] {
+						for _, kf := range known {
+							if kf.Status != "fixed" || kf.Property != prop || kf.Witness == "" || funcOfObligation(kf.Obligation) != funcOfObligation(o.Name) {
+								continue
+							}
+							if out, failed := replayWitness(verif, eng.repoDir, kf.Witness); failed {
+								witnessed = true
+								if f, _ := os.OpenFile(path, os.O_APPEND|os.O_WRONLY, 0o644); f != nil {
+									fmt.Fprintf(f, "\nREPLAYED ON THE REAL CODE: the recorded failing input of the earlier defect in this function (%s) FAILS again:\n%s\n", kf.Witness, out)
+									f.Close()
+								}
+								break
+							}
+						}
+					}
 					suffix := ""
-					if o.Result == nil || o.Result.Status != "sat" || !replayConfirmed(path) {
+					if !witnessed && (o.Result == nil || o.Result.Status != "sat" || !replayConfirmed(path)) {
 						suffix = " no-failing-input-found"
 					}
 					violations = append(violations, fmt.Sprintf("%s [%s]", o.Name, st))
@@ -468,4 +486,56 @@ func filterModel(m string) string {
 		return trunc(m, 4000)
 	}
 	return trunc(strings.Join(out, "\n"), 8000)
+}
+
+func funcOfObligation(name string) string {
+	if i := strings.Index(name, "#"); i >= 0 {
+		return name[:i]
+	}
+	return name
+}
+
+// replayWitness runs a recorded reproducer (replay/findings/*_test.go, optionally followed by a
+// test name) as an in-package test of the repository through go test -overlay.
+func replayWitness(verif, repo, witness string) (string, bool) {
+	f := strings.FieldsFunc(witness, func(r rune) bool { return r == ' ' || r == ';' || r == '(' })
+	if len(f) == 0 || !strings.HasSuffix(f[0], "_test.go") {
+		return "", false
+	}
+	file := filepath.Join(verif, f[0])
+	src, err := os.ReadFile(file)
+	if err != nil {
+		return "", false
+	}
+	run := "TestReplay"
+	if len(f) > 1 && strings.HasPrefix(f[1], "Test") {
+		run = f[1]
+	}
+	dir := "."
+	for _, l := range strings.Split(string(src), "\n") {
+		if strings.HasPrefix(l, "package ") {
+			if p := strings.TrimSpace(strings.TrimPrefix(l, "package ")); p != "pebbles" {
+				dir = p
+			}
+			break
+		}
+	}
+	tmp, err := os.MkdirTemp("", "gocv-witness")
+	if err != nil {
+		return "", false
+	}
+	defer os.RemoveAll(tmp)
+	ov := filepath.Join(tmp, "ov.json")
+	target := filepath.Join(repo, dir, "zz_verif_replay_test.go")
+	os.WriteFile(ov, []byte(fmt.Sprintf("{\"Replace\":{%q:%q}}", target, file)), 0o644)
+	cmd := exec.Command("go", "test", "-overlay", ov, "-vet=off", "-count=1", "-timeout", "60s", "-run", run, "./"+dir)
+	cmd.Dir = repo
+	cmd.Env = append(os.Environ(), "GOFLAGS=-mod=mod", "GOPROXY=off", "GOSUMDB=off", "GOTOOLCHAIN=local")
+	out, rerr := cmd.CombinedOutput()
+	failed := rerr != nil && (strings.Contains(string(out), "--- FAIL") || strings.Contains(string(out), "panic:"))
+	o := string(out)
+	if len(o) > 3000 {
+		o = o[:3000]
+	}
+	return o, failed
 }
